@@ -523,17 +523,15 @@ def vt_unpack_any(c):
 # ================================================================================================ PDU.unpack on arbitrary bytes (C12)
 @REG.variant("dpapi_ng._rpc._pdu.PDU.unpack", "arbitrary-bytes", props=["C12"])
 def pdu_unpack_any(c):
-    """Any byte string of at most one fragment (64 KiB), for the PDU types a client decodes (everything except
-    bind / alter_context, which only a server receives): work proportional to the length. Potential argument as for
-    the endpoint-mapper reply: each completed list element costs a constant number of steps and consumes bytes."""
+    """Any byte string of at most one fragment (64 KiB), every registered PDU type (bind / alter_context included, although
+    only a server receives them): work proportional to the length, on normal and exceptional exits. Potential argument as
+    for the endpoint-mapper reply: each completed list element costs a constant number of steps and consumes bytes."""
     class_param(c, "PDU")
     data = c.param("data", T.bytes(max_len=0xFFFF))
     n = Z(c.len(data))
-    ptype = R.to_int(c.ctx, R.py_slice(c.ctx, c.I.rope_of(data), 2, 3), "little")
-    c.assume(z3.And(Z(ptype) != 11, Z(ptype) != 14))
     c.raises("Exception", when=None)
     c.raises_only({"Exception"})
-    c.ghost_bound("ticks", 2 * n + 32, on_raise=2 * n + 32)
+    c.ghost_bound("ticks", 2 * n + 48, on_raise=2 * n + 48)
     c.ghost_bound("copied", 2 * n + 64)
     L = lambda v: Z(c.len(v))  # noqa: E731
 
@@ -563,7 +561,63 @@ def annotate_pdu_loops(c, cost=False):
     c.loop(0, target="dpapi_ng._rpc._bind.BindNak._unpack", invariant=pot, havoc={"versions": _opaque_list})
     if not cost:
         c.loop(0, target="dpapi_ng._rpc._bind.Bind._unpack", invariant=lambda s: [L(s.view) <= L(s.at_entry.view)], havoc={"contexts": _opaque_list})
-        c.loop(0, target="dpapi_ng._rpc._bind.ContextElement.unpack", invariant=lambda s: [L(s.view) <= L(s.at_entry.view)], havoc={"transfer_syntaxes": _opaque_list})
+    else:
+        # a context element with nt transfer syntaxes costs at most 2*nt + 6 steps and (having been decoded) occupies at least
+        # 20 + 20*nt bytes, all of which the loop then skips: three steps per byte consumed is never exceeded
+        c.loop(0, target="dpapi_ng._rpc._bind.Bind._unpack", invariant=lambda s: [L(s.view) <= L(s.at_entry.view), 3 * Z(s.ticks) + L(s.view) <= 3 * Z(s.at_entry.ticks) + L(s.at_entry.view),
+                                                                                   Z(s.copied) + L(s.view) <= Z(s.at_entry.copied) + L(s.at_entry.view)],
+               havoc={"contexts": _opaque_list})
+    annotate_context_element_loop(c)
+
+
+def annotate_context_element_loop(c):
+    from pyvc.values import SList
+
+    L = lambda v: Z(c.len(v))  # noqa: E731
+
+    def inv(s):
+        L0 = L(s.at_entry.view) + 24  # the loop starts on data[24:]; clamped slicing: the view is what is left, never negative
+        left = L0 - 24 - 20 * Z(s._i)
+        return [L(s.view) == z3.If(left > 0, left, 0), Z(s.ticks) - Z(s.at_entry.ticks) <= 2 * Z(s._i), Z(s.copied) - Z(s.at_entry.copied) <= 16 * Z(s._i),
+                z3.Or(Z(s._i) == 0, L(s.data) >= 20 + 20 * Z(s._i)),
+                L(s.at_entry.view) == z3.If(L(s.data) - 24 > 0, L(s.data) - 24, 0)]
+
+    c.loop(0, target="dpapi_ng._rpc._bind.ContextElement.unpack", invariant=inv, havoc={"transfer_syntaxes": lambda I_, cur, s: SList(s._i, lambda j: UNSPEC)})
+
+
+@REG.contract("dpapi_ng._rpc._bind.ContextElement.unpack", props=["C12"])
+def context_element_unpack(c):
+    """On arbitrary bytes: as many transfer syntaxes as the count field announces or an error; a decoded element with nt syntaxes
+    occupies at least 20 + 20*nt bytes and costs at most 2*nt + 4 steps (an error at most len + 6)."""
+    from pyvc.values import SList
+    from .c_asn1 import opaque
+
+    class_param(c, "ContextElement")
+    if not c.verifying:
+        data = c.param("data")
+        if not opaque(c.I.rope_of(data)):
+            c.inline_instead()  # structured bytes (the round-trip proofs): the body is executed
+    else:
+        data = c.param("data", T.bytes(kind="memoryview", max_len=0xFFFF))
+        annotate_context_element_loop(c)
+    n = Z(c.len(data))
+    nt = R.to_int(c.ctx, R.py_slice(c.ctx, c.I.rope_of(data), 2, 4), "little")
+    c.raises("ValueError", when=None)  # a syntax identifier cut short (uuid.UUID needs 16 bytes)
+    c.raises_only({"ValueError"})
+    if c.verifying:
+        t0 = Z(c.ctx.ghost.get("ticks", 0))
+        c0 = Z(c.ctx.ghost.get("copied", 0))
+        c.ensures("announced-number-of-syntaxes-present-in-the-data", lambda r: [isinstance(r.fields["transfer_syntaxes"], (SList, list)),
+                                                                             Z(r.fields["transfer_syntaxes"].length if isinstance(r.fields["transfer_syntaxes"], SList) else len(r.fields["transfer_syntaxes"])) == Z(nt), n >= 20 + 20 * Z(nt),
+                                                                             Z(c.ctx.ghost["ticks"]) - t0 <= 2 * Z(nt) + 4, Z(c.ctx.ghost.get("copied", 0)) - c0 <= 16 * Z(nt) + 16])
+        c.ghost_bound("ticks", n + 6, on_raise=n + 6)
+        c.ghost_bound("copied", n + 16, on_raise=n + 16)
+    else:
+        c.ensures("announced-number-of-syntaxes-present-in-the-data", lambda r: n >= 20 + 20 * Z(nt))
+        c.ghost_bound("ticks", 2 * Z(nt) + 4, on_raise=n + 6)
+        c.ghost_bound("copied", 16 * Z(nt) + 16, on_raise=n + 16)
+        c.returns(SObj(cls(c, "ContextElement"), {"context_id": R.to_int(c.ctx, R.py_slice(c.ctx, c.I.rope_of(data), 0, 2), "little"), "abstract_syntax": UNSPEC,
+                                                   "transfer_syntaxes": SList(nt, lambda j: UNSPEC)}))
 
 
 # ================================================================================================ PDU.unpack summary (used by callers)
